@@ -207,9 +207,13 @@ func (fr *Frame) call(x *ssa.Call) Value {
 		return fr.invoke(x, fr.get(cc.Value), cc.Method.Name(), args)
 	}
 	callee := cc.StaticCallee()
-	if callee == nil {
-		if fv, ok := fr.get(cc.Value).(FuncV); ok {
+	var binds []Value
+	if callee == nil || len(callee.FreeVars) > 0 {
+		switch fv := fr.get(cc.Value).(type) {
+		case FuncV:
 			callee = fv.Fn
+		case ClosureV:
+			callee, binds = fv.Fn, fv.Binds
 		}
 	}
 	if callee == nil {
@@ -231,6 +235,7 @@ func (fr *Frame) call(x *ssa.Call) Value {
 		if r, ok := it.tryPowSummary(callee, args); ok {
 			return r
 		}
+		it.pendingBinds = binds
 		r := it.callFn(callee, args, inLoop)
 		if o, ok := it.Cfg.OriginOf[callee]; ok {
 			if t, isTop := r.(Top); isTop {
@@ -340,14 +345,40 @@ func (fr *Frame) builtin(x *ssa.Call, name string, args []Value) Value {
 		return KInt{big.NewInt(int64(n))}
 	case "append":
 		return fr.appendB(x, args)
+	case "min", "max":
+		acc, ok := asTerm(args[0])
+		for _, a := range args[1:] {
+			t, ok2 := asTerm(a)
+			if !ok || !ok2 {
+				return Top{Why: name}
+			}
+			lt := LT(t, acc)
+			if name == "max" {
+				lt = LT(acc, t)
+			}
+			r := Ite(lt, t, acc)
+			if r == nil {
+				return Top{Why: name}
+			}
+			acc = r
+		}
+		if ok {
+			return termValue(acc)
+		}
 	}
 	it.abortf("builtin %s in %s", name, fr.fn)
 	return nil
 }
 
 func (fr *Frame) appendB(x *ssa.Call, args []Value) Value {
+	return fr.appendValues(x.Type(), args[0], args[1])
+}
+
+// appendValues is append(a, b...) on abstract values; t is the slice type of the result.
+func (fr *Frame) appendValues(t types.Type, a0, a1 Value) Value {
 	it := fr.it
-	elemT := x.Type().Underlying().(*types.Slice).Elem()
+	args := []Value{a0, a1}
+	elemT := t.Underlying().(*types.Slice).Elem()
 	isByte := false
 	if b, ok := elemT.Underlying().(*types.Basic); ok && b.Kind() == types.Uint8 {
 		isByte = true
@@ -508,18 +539,12 @@ func (it *Interp) stdlib(fr *Frame, x *ssa.Call, fn *ssa.Function, args []Value)
 		return nil // initialisers of other packages
 	}
 	if it.Cfg.Opaque {
+		// schedule analysis: a standard-library function is not a field-level operation; its results and
+		// the memory it may write become unknown (secret if any operand is)
 		switch key {
-		case "errors.New", "fmt.Errorf":
+		case "errors.New", "fmt.Errorf", "crypto.Hash.New", "crypto/sha256.New":
 		default:
-			taint := false
-			for _, a := range args {
-				if it.anyTaint(a, 0) {
-					taint = true
-				}
-			}
-			if taint {
-				it.event("tainted-external", fr.fn, x.Pos(), "secret-dependent data passed to %s", key)
-			}
+			return it.unknownResult(x, args)
 		}
 	}
 	switch key {
@@ -590,6 +615,35 @@ func (it *Interp) stdlib(fr *Frame, x *ssa.Call, fn *ssa.Function, args []Value)
 					return nil
 				} else if isC {
 					panic(&goPanic{val: KStr("index out of range"), fn: fr.fn, pos: x.Pos()})
+				}
+			}
+		}
+	case "encoding/binary.bigEndian.AppendUint64", "encoding/binary.bigEndian.AppendUint32", "encoding/binary.bigEndian.AppendUint16":
+		n := map[string]int{"AppendUint64": 8, "AppendUint32": 4, "AppendUint16": 2}[fn.Name()]
+		if v, ok := asTerm(args[2]); ok {
+			o := it.NewArrayObject(types.Typ[types.Uint8], n, "be", false)
+			for k := 0; k < n; k++ {
+				o.Root.Kids[k].Val = termValue(ByteOf(v, n-1-k))
+			}
+			tail := SliceV{Arr: o.Root, Lo: 0, Len: TInt(int64(n)), Cap: n}
+			return fr.appendValues(x.Type(), args[1], tail)
+		}
+	case "encoding/hex.Encode":
+		if d, ok := it.asSlice(args[0]); ok {
+			if segs, ok := it.sliceSegs(args[1]); ok {
+				ns := normSegs(segs)
+				var src []*Term
+				if len(ns) == 1 && ns[0].Bytes != nil {
+					src = ns[0].Bytes
+				}
+				if len(ns) == 0 || src != nil {
+					if dl, isC := it.ApplyTerm(d.Len).IsConst(); isC && int(dl.Int64()) >= 2*len(src) {
+						for i, b := range src {
+							it.storeValue(d.Arr.Kids[d.Lo+2*i], TermV{WOp(8, "hexhi", b)})
+							it.storeValue(d.Arr.Kids[d.Lo+2*i+1], TermV{WOp(8, "hexlo", b)})
+						}
+						return KInt{big.NewInt(int64(2 * len(src)))}
+					}
 				}
 			}
 		}
@@ -667,6 +721,14 @@ func (it *Interp) stdlib(fr *Frame, x *ssa.Call, fn *ssa.Function, args []Value)
 		if s, ok := args[0].(SymStr); ok {
 			return Tuple{SymBytes("unhex(" + s.Name + ")"), SymIface{IsNil: SymBool("hexvalid(" + s.Name + ")"), Name: "hex error"}}
 		}
+	case "encoding/hex.AppendDecode":
+		// AppendDecode(dst[:0], []byte(h)) is DecodeString(h) into the given buffer
+		if src, ok := args[1].(AbsSlice); ok && len(src.Segs) == 1 && strings.HasPrefix(src.Segs[0].Name, "str:") {
+			if n, isC := it.lenTerm(args[0]).IsConst(); isC && n.Sign() == 0 {
+				name := strings.TrimPrefix(src.Segs[0].Name, "str:")
+				return Tuple{SymBytes("unhex(" + name + ")"), SymIface{IsNil: SymBool("hexvalid(" + name + ")"), Name: "hex error"}}
+			}
+		}
 	case "fmt.Errorf":
 		o := it.NewObject(types.Typ[types.Int], "fmt.Errorf", false)
 		return Iface{Dyn: Ptr{o.Root}}
@@ -717,6 +779,33 @@ func (it *Interp) stdlib(fr *Frame, x *ssa.Call, fn *ssa.Function, args []Value)
 				}
 				it.event("entropy", fr.fn, x.Pos(), "%s|%d", what, l.Int64())
 				return Tuple{KInt{l}, SymIface{IsNil: SymBool(fmt.Sprintf("readok#%d", it.nreads)), Name: "read error"}}
+			}
+		}
+	case "bytes.Equal", "crypto/subtle.ConstantTimeCompare":
+		sa, ok1 := it.sliceSegs(args[0])
+		sb, ok2 := it.sliceSegs(args[1])
+		if ok1 && ok2 {
+			na, nb := normSegs(sa), normSegs(sb)
+			var ba, bb []*Term
+			if len(na) == 1 && na[0].Bytes != nil {
+				ba = na[0].Bytes
+			}
+			if len(nb) == 1 && nb[0].Bytes != nil {
+				bb = nb[0].Bytes
+			}
+			if (len(na) == 0 || ba != nil) && (len(nb) == 0 || bb != nil) {
+				eq := TInt(1)
+				if len(ba) != len(bb) {
+					eq = TInt(0)
+				} else {
+					for i := range ba {
+						eq = eq.Mul(EQ(ba[i], bb[i]))
+					}
+				}
+				if key == "bytes.Equal" {
+					return predValue(eq)
+				}
+				return termValue(eq)
 			}
 		}
 	case "bytes.Clone", "slices.Clone":
